@@ -139,3 +139,10 @@ Proof.
   - rewrite !app_nil_r. rewrite !app_assoc. rewrite break_at_free by (repeat apply free_app; assumption).
     rewrite <- !app_assoc. rewrite (Hoff (fun nm el offv => Some (OpText nm el offv None))). reflexivity.
 Qed.
+
+(* distinct operations never share a text *)
+Lemma print_op_injective a b : op_ok a -> op_ok b -> print_op a = print_op b -> a = b.
+Proof.
+  intros Ha Hb H. pose proof (parse_print_op a Ha) as A. pose proof (parse_print_op b Hb) as B.
+  rewrite H in A. rewrite A in B. injection B as ->. reflexivity.
+Qed.
